@@ -806,3 +806,70 @@ def case_setitem(ctx, cfg):
         if a2.shape != af.shape or not arr_eq(a2, af) or (hasattr(r2, "array") and hasattr(rf, "array") and types_of(r2) != types_of(rf)):
             ctx.fail(f"setitem-then-use:{use}:stale", use, inputs, af, a2)
             return
+
+
+# ---------------------------------------------------------------------------------------------------
+# A scalar boolean in an index (Python True, np.True_): numpy treats it as a 0-d advanced index that consumes no axis and
+# inserts an axis of length 1 at its position. Every expression of at most three basic items (slices, None, Ellipsis) with one
+# scalar bool at every position x every index-type pattern; the values are numpy's, the inserted axis is a collection axis
+# and every surviving axis keeps its type. (Integers are left out here: next to a bool they become advanced indices, and that
+# interplay is what the main grammar's list / mask items already cover.)
+
+SB_ITEMS = [":", "0:2", "1:", "::-1", "None", "..."]
+
+
+def enum_scalar_bool(tier, seed):
+    pats = ["ccc", "nnn", "fcn", "ffc", "cnc", "fnn", "ncn"] if tier == "quick" else all_patterns(3)
+    pats = [p for p in pats if len(p) == 3]
+    for L in range(0, 4 if tier == "thorough" else 3):
+        for expr in itertools.product(SB_ITEMS, repeat=L):
+            if sum(1 for x in expr if x == "...") > 1:
+                continue
+            for pos in range(L + 1):
+                for flavour in ("py", "np"):
+                    yield (expr, pos, flavour, tuple(pats))
+
+
+@family("C19", "scalar_bool_index", enum_scalar_bool)
+def case_scalar_bool(ctx, cfg):
+    expr, pos, flavour, pats = cfg
+    shape = (3, 4, 5)
+    cons = sum(1 for x in expr if x not in ("None", "..."))
+    if cons > len(shape):
+        return
+    items = [make_item(x, 3) for x in expr]  # the slices used here do not depend on the axis length
+    b = True if flavour == "py" else np.True_
+    idx = tuple(items[:pos] + [b] + items[pos:])
+    # predicted types: walk the items
+    ell_span = len(shape) - cons if "..." in expr else 0
+    for pat in pats:
+        ctx.state((expr, pos, flavour, pat))
+        t = make_tensor(pat, shape)
+        want_arr = t.array[idx]
+        ax, types = 0, []
+        for k, name in enumerate(list(expr[:pos]) + ["BOOL"] + list(expr[pos:])):
+            if name == "BOOL" or name == "None":
+                types.append("f")
+            elif name == "...":
+                types += list(pat[ax : ax + ell_span])
+                ax += ell_span
+            else:
+                types.append(pat[ax])
+                ax += 1
+        types += list(pat[ax:])
+        want_types = "".join(types)
+        assert len(want_types) == want_arr.ndim, ("scalar-bool oracle broken", expr, pos, want_types, want_arr.shape)
+        res, e = ctx.call(lambda: t[idx])
+        ctx.trace()
+        inputs = {"index_types": pat, "expression": list(expr), "bool_position": pos, "bool_kind": flavour}
+        if e is not None:
+            ctx.fail(f"scalar-bool:{type(e).__name__}", "getitem", inputs, "a tensor", e)
+            return
+        if not hasattr(res, "array") or res.array.shape != want_arr.shape or not np.array_equal(res.array, want_arr):
+            ctx.fail("scalar-bool:values", "getitem", inputs, want_arr.shape, getattr(res, "shape", res))
+            return
+        got = types_of(res)
+        ctx.tally("types-checked")
+        if got != want_types:
+            ctx.fail(f"scalar-bool:types:{flavour}", "getitem", inputs, want_types, got)
+            return
